@@ -35,7 +35,8 @@ class SessionRules(Harness):
         "scripted agents stand for arbitrary order-producing programs (one order per consultation)")
     outside = ("more than 3 normal / 2 HFT agents, more than 2 sessions, batches with more than one order",)
     bounds = {
-        "quick": "F1 caps: 1 session x 1 step, 3 normal + 2 HFT agents, caps in {0,1,2}^2, rate in {0,1,sym}; "
+        "quick": "F1 caps: 1 session x 1 step, 3 normal + 2 HFT agents, caps in {0,1,2}^2, rate in {0,1,sym} (two cases "
+                 "with up to two items per consultation); "
                  "F2 flags: 2 sessions x (1..2 steps), all placement/execution combinations, 2 agents; "
                  "F3 events: each built-in event (and a probe) in either of two sessions, first session without execution",
         "thorough": "F1 with 2 steps for rate sym; F2 with 2 steps each; F3 with both halt lengths and 3-step sessions",
@@ -51,6 +52,9 @@ class SessionRules(Harness):
                     continue
                 out.append({"fam": "caps", "mn": mn, "mh": mh, "rate": rate, "A": 3, "H": 2, "steps": 1})
         out.append({"fam": "caps", "mn": 3, "mh": 1, "rate": "sym", "A": 3, "H": 1, "steps": 1})
+        # agents handing in up to two items per consultation: the caps count agents that produced orders
+        out.append({"fam": "caps", "mn": 2, "mh": 1, "rate": "1", "A": 3, "H": 1, "steps": 1, "items": 2})
+        out.append({"fam": "caps", "mn": 2, "mh": 2, "rate": "1", "A": 2, "H": 3, "steps": 1, "items": 2})
         # F2: flags matrix
         flags = [(True, True), (True, False), (False, True), (False, False)]
         for f0 in flags:
@@ -85,7 +89,8 @@ class SessionRules(Harness):
                                    highFrequencySubmitRate={"0": 0.0, "1": 1.0, "sym": 0.5}[case["rate"]])]
             st = rn.base_settings(n_agents=case["A"], n_hft=case["H"], sessions=sessions)
             # buys only at one concrete price: the subject here is scheduling, not matching
-            menu = {"acts": ["none", "limit"], "side": "B", "price_fixed": 100, "vol_fixed": 1}
+            menu = {"acts": ["none", "limit"], "side": "B", "price_fixed": 100, "vol_fixed": 1,
+                    "max_orders": case.get("items", 1)}
         elif fam == "flags":
             sessions = [rn.session(i, n, p, e, maxNormalOrders=2) for i, (p, e, n) in enumerate(case["sessions"])]
             st = rn.base_settings(n_agents=2, sessions=sessions)
